@@ -26,6 +26,22 @@ CHECKS = {
             "the reference semantics is a Python transcription of the specification, not (yet) a "
             "Coq definition; exact laws decided on exact-safe programs only",
             "section 6 C02"),
+    "C03": ("proof",
+            "the model of fill.numpy(columns, weights) is the property's right-hand side (the rows "
+            "filled one by one with their weights); Coq theorems about it for every arithmetic "
+            "instance: every split of a batch into successive calls gives the same aggregate and "
+            "outcome, rows of weight zero do not count, and (exact instance) a batch is the aggregate "
+            "of the batch alone merged into the accumulator; " + TIE + ": a vectorised instance (dict "
+            "of arrays or record array) and a row-by-row instance of the same tree are driven through "
+            "the same batches (0-10 rows over the tree's critical values, weight 1 / scalar / "
+            "non-negative array with zeros) and compared with each other and with the model after "
+            "every batch, up to empty sparse bins; the input arrays are compared with copies",
+            "partial: the numpy kernels (masks, bincount, np.unique, batch mean/variance formulas) "
+            "are not modelled, so 'kernel = row semantics' is decided by differential checking, not "
+            "by a theorem; bit-for-bit only where the arithmetic is exact, otherwise to 1e-9; "
+            "Average/Deviate on well-conditioned data only; tuple-of-arrays input and negative "
+            "weights are outside the claim",
+            "section 6 C03"),
     "C04": ("proof",
             "Coq theorems: toJson is strict JSON for every tree and every arithmetic instance; "
             "fromJson(toJson(leaf)) is the immutable leaf with the same numbers and the inherited "
